@@ -7,6 +7,7 @@ package main
 import (
 	"fmt"
 	"sort"
+	"strings"
 
 	"github.com/songzhibin97/go-baseutils/structure/maps/skipmap"
 	"github.com/songzhibin97/go-baseutils/structure/sets/skipset"
@@ -17,6 +18,37 @@ import (
 
 	"vh/vhlib"
 )
+
+// Coq overflows its stack on a list literal of 2^16 elements: long lists are printed as  (chunk ++ chunk ++ ...)
+func bigList(items []string) string {
+	const chunk = 4096
+	if len(items) <= chunk {
+		return vhlib.List(items)
+	}
+	var parts []string
+	for i := 0; i < len(items); i += chunk {
+		j := i + chunk
+		if j > len(items) {
+			j = len(items)
+		}
+		parts = append(parts, vhlib.List(items[i:j]))
+	}
+	return "(" + strings.Join(parts, " ++ ") + ")"
+}
+func bigNatList(vs []int) string {
+	it := make([]string, len(vs))
+	for i, v := range vs {
+		it[i] = vhlib.Nat(v)
+	}
+	return bigList(it)
+}
+func bigIntList(vs []int) string {
+	it := make([]string, len(vs))
+	for i, v := range vs {
+		it[i] = vhlib.Z(int64(v))
+	}
+	return bigList(it)
+}
 
 // ---------- D. B-tree Put / Remove / Get, exact ----------
 func btOps(w *vhlib.Writer, rng *vhlib.Rng, o vhlib.Opts) {
@@ -300,7 +332,7 @@ func knodes(keys, heights []int) string {
 		}
 		it = append(it, fmt.Sprintf("(%s, %d%%nat)", vhlib.Z(int64(keys[i])), h))
 	}
-	return vhlib.List(it)
+	return bigList(it)
 }
 
 func skipOps(w *vhlib.Writer, rng *vhlib.Rng, o vhlib.Opts) {
@@ -418,7 +450,7 @@ func skipOps(w *vhlib.Writer, rng *vhlib.Rng, o vhlib.Opts) {
 				fk, fh, _, fhi := a.shape()
 				ops = append(ops, fmt.Sprintf("(SFinal %s, 0%%nat, %d%%nat)", knodes(fk, fh), fhi))
 				steps = append(steps, a.label+".finalshape")
-				term := fmt.Sprintf("CSkipOps %s %d%%nat %s %s %s %s", a.kind, hi, vhlib.IntList(ks), vhlib.NatList(hs), vhlib.NatList(lanes), vhlib.List(ops))
+				term := fmt.Sprintf("CSkipOps %s %d%%nat %s %s %s %s", a.kind, hi, bigIntList(ks), bigNatList(hs), bigNatList(lanes), vhlib.List(ops))
 				w.Case(term, a.label+" ops", n >= 2, append([]string{a.label + ".lanes"}, steps...),
 					map[string]interface{}{"kind": a.label, "n": n, "profile": prof, "highest": hi, "ops": ops[:len(ops)-1]})
 			}
